@@ -30,6 +30,18 @@ PROPS = {
     "C03": dict(
         props="Props/C03.v",
         tables=["core"],
+        src=["py_Relation_is_mandatory", "py_Relation_is_optional", "py_Relation_is_or", "py_Relation_is_alternative",
+             "py_Relation_is_mutex", "py_Relation_is_cardinal", "py_Relation_is_group", "py_Feature___eq__",
+             "py_Feature_is_empty", "py_Feature_get_relations", "py_Feature_get_parent", "py_Feature_get_children",
+             "py_Feature_is_root", "py_Feature_is_mandatory", "py_Feature_is_optional", "py_Feature_is_or_group",
+             "py_Feature_is_alternative_group", "py_Feature_is_mutex_group", "py_Feature_is_cardinality_group",
+             "py_Feature_is_group", "py_Feature_is_multiple_group_decomposition", "py_Feature_is_leaf",
+             "py_Feature_is_boolean", "py_Feature_is_numerical", "py_Feature_is_string", "py_Feature_is_multifeature",
+             "py_FeatureModel_get_relations", "py_FeatureModel_get_features", "py_FeatureModel_get_boolean_features",
+             "py_FeatureModel_get_numerical_features", "py_FeatureModel_get_string_features",
+             "py_FeatureModel_get_mandatory_features", "py_FeatureModel_get_optional_features",
+             "py_FeatureModel_get_alternative_group_features", "py_FeatureModel_get_or_group_features",
+             "py_FeatureModel_get_feature_by_name"],
         suites=[suite_q.run, suite_l.run],
         rule=("suite L: sequences of public calls that create and link feature objects (Feature(...), add_relation, del "
               "relations[k], Relation.add_child, parent assignment; four in five respect the guards of "
@@ -47,6 +59,8 @@ PROPS = {
     ),
     "C13": dict(
         props="Props/C13.v", tables=["core"],
+        src=["py_count_configurations", "py_count_configurations_rec", "py_FMEstimatedConfigurationsNumber_execute",
+             "py_FMEstimatedConfigurationsNumber_get_result"],
         suites=[suite_o.make_run("O-estimate", ["estimate"], with_ctcs=True, big=("star",), check_sem=True)],
         rule=("suite O-estimate: FMEstimatedConfigurationsNumber on one re-used operation object vs the model's "
               "[estimate]; all trees up to 4 (quick) / 6 (thorough) features x cardinalities, random models up to "
@@ -58,6 +72,7 @@ PROPS = {
     ),
     "C14": dict(
         props="Props/C14.v", tables=["core"],
+        src=["py_get_core_features"],
         suites=[suite_o.make_run("O-core", ["core"], with_ctcs=True, big=("star",), check_sem=True)],
         rule=("suite O-core: FMCoreFeatures (re-used operation object) vs the model's [core_features] as multisets of "
               "names; same streams as C13; oracle: brute-force always-selected set, soundness with constraints, "
@@ -74,6 +89,10 @@ PROPS = {
     ),
     "C16": dict(
         props="Props/C16.v", tables=["core"],
+        src=["py_count_leaf_features", "py_get_leaf_features", "py_get_feature_ancestors", "py_max_depth_tree",
+             "py_average_branching_factor", "py_variation_points", "py_FMCountLeafs_execute", "py_FMLeafFeatures_execute",
+             "py_FMFeatureAncestors_execute", "py_FMFeatureAncestors_set_feature", "py_FMMaxDepthTree_execute",
+             "py_FMAverageBranchingFactor_execute", "py_FMVariationPoints_execute"],
         suites=[suite_o.make_run("O-tree", ["count_leafs", "leaf_features", "max_depth", "abf", "ancestors", "vps"],
                                  with_ctcs=False, big=("large",), bf_limit=0)],
         rule=("suite O-tree: the six tree-shape operations (re-used operation objects; ancestors for every feature) vs "
@@ -83,6 +102,11 @@ PROPS = {
     ),
     "C18": dict(
         props="Props/C18.v", tables=["core"],
+        src=["py_Constraint_is_requires_constraint", "py_Constraint_is_excludes_constraint",
+             "py_Constraint_is_simple_constraint", "py_Constraint_is_complex_constraint",
+             "py_Constraint_is_logical_constraint", "py_Constraint_is_arithmetic_constraint",
+             "py_Constraint_is_aggregation_constraint", "py_Constraint_is_single_feature_constraint",
+             "py_Constraint_get_features", "py_left_right_features_from_simple_constraint", "py_split_formula"],
         suites=[suite_k.run],
         rule=("suite K: str, pretty_str, get_operators/operands, get_features, the ten kind predicates, "
               "left_right_features_from_simple_constraint, split_constraint, get_clauses on one constraint, compared with "
@@ -106,6 +130,7 @@ PROPS = {
     ),
     "C05": dict(
         props="Props/C05.v", tables=["core", "json"],
+        src=["py_to_json", "py_get_tree_info", "py_get_attributes_info", "py_get_constraints_info", "py_get_ctc_info"],
         suites=[suite_json.run],
         rule=("suites W-json / R-json: JSONWriter.transform() (returned text = file bytes, parsed back with json.loads) vs "
               "the model's [json_write]; JSONReader on the file and JSONReader.parse_json on the loaded object vs "
@@ -184,6 +209,10 @@ PROPS = {
     ),
     "C19": dict(
         props="Props/C19.v", tables=["core", "metrics"],
+        src=["py_FMEstimatedConfigurationsNumber_execute", "py_FMEstimatedConfigurationsNumber_get_result",
+             "py_FMCoreFeatures_execute", "py_FMCoreFeatures_get_result", "py_FMCountLeafs_execute",
+             "py_FMLeafFeatures_execute", "py_FMMaxDepthTree_execute", "py_FMAverageBranchingFactor_execute",
+             "py_FMVariationPoints_execute", "py_FMFeatureAncestors_execute", "py_FMFeatureAncestors_set_feature"],
         suites=[suite_h.run_history, suite_h.run_genrandom],
         rule=("suite O-history: sequences of three look-alike models (equal-comparing but different, same names in other "
               "positions) through the nine read-only operations and FMMetrics on re-used operation objects; each result "
